@@ -129,6 +129,7 @@ def run(check: Check):
              'reciprocal square root of that vector\'s length; sign-then-transform vs transform-then-sign; padding by '
              '(power-of-two ceiling - size) zeros and cropping to prod(original shape) before reshaping')
   check.rule('R-KEY', 'per-leaf keys are used linearly')
+  check.rule('R-PURE', 'no function of walsh_hadamard.py writes to module-level state or to its arguments (no caches)')
   check.rule('R-DIV', 'the rotations divide only by shape-derived lengths (or under a zero guard)')
   check.rule('R-SCHEDULE', 'the per-axis contraction of walsh_hadamard_transform: einsum subscripts "<all axes>,<i><K>-><all axes with i '
              'replaced by K>" with K a fresh single-digit label (guarded), or tensordot over axis i followed by moveaxis(-1, i); other '
@@ -327,6 +328,18 @@ def run(check: Check):
            'degenerate block sizes are rejected and each reshaped axis of size d is multiplied by the Hadamard matrix of order d',
            nontrivial=False)
   _schedule(check, wh, wff)
+  # no memo / cache: a rotation depends on its arguments only (shapes of an earlier tree must not leak into a later call)
+  from fjsa.rules.pure import PurityAnalysis
+  pa_ = PurityAnalysis(repo)
+  n_mut = 0
+  for g in repo.module(MOD).functions():
+    for mu in pa_.mutations(g):
+      if mu.root.startswith('<') or mu.root in g.params:
+        n_mut += 1
+        check.ob('R-PURE', g, mu.construct[:80], False,
+                 f'{mu.how} ({mu.root}): state kept between calls - a later rotation can see shapes / keys of an earlier one', node=mu.node)
+  check.ob('R-PURE', wh, 'no writes to module state or arguments in walsh_hadamard.py', n_mut == 0, 'rotations are functions of their arguments',
+           nontrivial=False)
   # finiteness: rotations divide only by lengths (shape-derived) - a data-dependent denominator gives 0/0 on an all-zero leaf
   from fjsa.rules.div import DivAnalysis
   dv = DivAnalysis(repo)
